@@ -375,6 +375,8 @@ where
                 .annotations()
                 .filter_all(annotations.deref().clone(), key.rootstore())
                 .test(),
+            Filter::Keys(v, FilterMode::Any, _) => v.contains(&key.fullhandle()),
+            Filter::BorrowedKeys(v, FilterMode::Any, _) => v.contains(&key.fullhandle()),
             Filter::Keys(_, FilterMode::All, _) => {
                 unreachable!("not handled by this iterator but by FilterAllIter")
             }
